@@ -36,6 +36,41 @@ func initKeys(seed int64) {
 		}
 		kidx[keys[i]] = i
 	}
+	// key 2 is a NON-CANONICAL encoding (y + p, y < 19) of a point: the cache must treat a key as the byte string the
+	// caller supplied (index, eviction and CompressedY() all by the same bytes), whatever the point re-encodes to.
+	// Its signatures (made with the unrelated priv[2]) are simply invalid, consistently for plain and cached verification.
+	delete(kidx, keys[2])
+	found := false
+	for y := 0; y < 19 && !found; y++ {
+		for _, sign := range []byte{0, 0x80} {
+			var b [32]byte
+			// p + y = 2^255 - 19 + y, little-endian
+			for i := range b {
+				b[i] = 0xff
+			}
+			b[0] = byte(0xed + y)
+			b[31] = 0x7f | sign
+			e, err := ed25519.NewExpandedPublicKey(b[:])
+			if err != nil {
+				continue
+			}
+			var pt curve.EdwardsPoint
+			var re curve.CompressedEdwardsY
+			if _, err := pt.SetCompressedY((*curve.CompressedEdwardsY)(&b)); err != nil {
+				continue
+			}
+			re.SetEdwardsPoint(&pt)
+			if re == curve.CompressedEdwardsY(b) {
+				continue
+			}
+			keys[2], exps[2], found = curve.CompressedEdwardsY(b), e, true
+			break
+		}
+	}
+	if !found {
+		panic("c18: no non-canonical public key encoding found")
+	}
+	kidx[keys[2]] = 2
 }
 
 // ---- sequential model -------------------------------------------------------
